@@ -124,7 +124,12 @@ fn check(case: &Case, with_node: bool) -> Vec<(String, String)> {
     let wal = wal_store(&cont[4..6]);
     let in_store: Vec<Upd> = layout.all_updates();
     let all: Vec<Upd> = cont.iter().flatten().copied().collect();
-    let expect_store = projection(&fold(&in_store.iter().map(|u| u.delta()).collect::<Vec<_>>()));
+    // the sub-collection that lives in the object store is ground truth only if ITS merge is order-independent too
+    let mut in_store_set = in_store.clone();
+    in_store_set.sort();
+    in_store_set.dedup();
+    let store_truth = order_independent_fold(&in_store_set).map(|f| projection(&f));
+    let expect_store = store_truth.clone().unwrap_or_default();
     // ground truth must not depend on order (checked by the caller for the set; duplicates are idempotent)
     let expect_all_fold = fold(&all.iter().map(|u| u.delta()).collect::<Vec<_>>());
     let expect_all = projection(&expect_all_fold);
@@ -144,7 +149,7 @@ fn check(case: &Case, with_node: bool) -> Vec<(String, String)> {
         Ok(Err(e)) => v.push((format!("recover error {shape}"), format!("{}: {e}", case.show()))),
         Ok(Ok(r1)) => {
             let (p1, _) = proj_of(&r1.checkpoint_state, &r1.deltas);
-            if p1 != expect_store {
+            if store_truth.is_some() && p1 != expect_store {
                 let k = expect_store.keys().chain(p1.keys()).find(|k| expect_store.get(*k) != p1.get(*k)).unwrap();
                 v.push((format!("recover!=merge {shape}"), format!("{}: key {k}: recover() folds to {:?}, merge of the persisted updates is {:?}", case.show(), p1.get(k), expect_store.get(k))));
             }
@@ -293,6 +298,7 @@ fn main() {
     sets.extend(subsets(&red, if thorough { 4 } else { 3 }));
     sets.sort();
     sets.dedup();
+    sets.retain(|s| jointly_producible(s));
     let usable: Vec<Vec<Upd>> = par::par_map(&sets, |_, s| order_independent_fold(s).map(|_| s.clone())).into_iter().flatten().collect();
     let excluded = sets.len() - usable.len();
     let cases_n = AtomicU64::new(0);
